@@ -1631,6 +1631,9 @@ class IndexHierarchy(IndexBase):
                 for target in levels.targets: #type: ignore
                     labels.extend(target.index)
                     if target.targets is not None:
+                        for t in target.targets:
+                            # offsets are relative to the parent; the parent is removed (levels is a copy)
+                            t.offset += target.offset
                         targets.extend(target.targets)
                 # NOTE: the new outer index takes the class of the level below, not of the level being dropped
                 index = levels.targets[0].index.__class__(labels) #type: ignore
